@@ -12,6 +12,7 @@ import (
 	"os"
 	"path/filepath"
 	"strconv"
+	"strings"
 )
 
 // ImageFormat 图片格式类型
@@ -422,7 +423,7 @@ func (d *Document) AddImageFromFile(filePath string, config *ImageConfig) (*Imag
 func generateSafeImageFileName(imageID int, originalFileName string, format ImageFormat) string {
 	// 获取文件扩展名
 	ext := filepath.Ext(originalFileName)
-	if ext == "" {
+	if ext == "" || ext == "." {
 		// 如果没有扩展名，根据格式添加
 		switch format {
 		case ImageFormatPNG:
@@ -475,6 +476,7 @@ func (d *Document) AddImageFromData(imageData []byte, fileName string, format Im
 
 	// 更新内容类型
 	d.addImageContentType(format)
+	d.addImageExtensionContentType(safeFileName, format)
 
 	// 创建图片信息
 	imageInfo := &ImageInfo{
@@ -529,6 +531,7 @@ func (d *Document) AddImageFromDataWithoutElement(imageData []byte, fileName str
 
 	// 更新内容类型
 	d.addImageContentType(format)
+	d.addImageExtensionContentType(safeFileName, format)
 
 	// 创建图片信息
 	imageInfo := &ImageInfo{
@@ -960,6 +963,35 @@ func getImageDimensions(data []byte, format ImageFormat) (int, int, error) {
 
 	bounds := img.Bounds()
 	return bounds.Dx(), bounds.Dy(), nil
+}
+
+// addImageExtensionContentType 确保媒体部件实际使用的扩展名也有默认内容类型
+// （文件名保留调用者给出的扩展名，例如 .jpg/.JPEG，而 addImageContentType 只按格式注册 png/jpeg/gif）
+func (d *Document) addImageExtensionContentType(fileName string, format ImageFormat) {
+	ext := strings.TrimPrefix(filepath.Ext(fileName), ".")
+	if ext == "" || d.contentTypes == nil {
+		return
+	}
+	var contentType string
+	switch format {
+	case ImageFormatPNG:
+		contentType = "image/png"
+	case ImageFormatJPEG:
+		contentType = "image/jpeg"
+	case ImageFormatGIF:
+		contentType = "image/gif"
+	default:
+		return
+	}
+	for _, def := range d.contentTypes.Defaults {
+		if strings.EqualFold(def.Extension, ext) {
+			return
+		}
+	}
+	d.contentTypes.Defaults = append(d.contentTypes.Defaults, Default{
+		Extension:   ext,
+		ContentType: contentType,
+	})
 }
 
 // addImageContentType 添加图片内容类型
